@@ -6,7 +6,7 @@
    implementation's tokens; [observe] computes from a model token what the harness observes of a real one. *)
 From PV Require Import Base.Prelude Generated.T_lexer Model.Lexer Spec.LuaLex Instances.HoldsC07
   Proofs.LexerProofs Proofs.LexerInv Proofs.LexerSpec Proofs.LexerNum Proofs.LexerAgree Proofs.LexerMain
-  Proofs.LexerChunk Proofs.EchoProofs.
+  Proofs.LexerChunk Proofs.EchoProofs Proofs.LexerAppendLf Proofs.LexerChunkNl.
 
 (* THE property, for every byte string given as one chunk: if the source is in the dialect (the reference
    lexer is defined on it) the model lexes it and its token list passes the monitor predicate - same
@@ -112,3 +112,31 @@ Example C07_model_on_examples :
   end = [(5, bs_ "x", 0, 0); (8, bs_ "=", 0, 1); (3, bs_ "k", 0, 2); (0, bs_ " ", 1, 3); (2, bs_ "--c", 1, 4);
          (1, [13; 10], 1, 7); (5, bs_ "y", 2, 0); (8, bs_ "=", 2, 1); (3, bs_ "A", 2, 2)].
 Proof. vm_compute. reflexivity. Qed.
+
+(* chunking beyond line-feed-terminated chunks (build.py puts a separate one-byte newline line after a package file
+   that has no final newline): if the text up to the end of a line [x] is in the dialect, the line feed that follows
+   may come as a chunk of its own - same tokens, same positions, same error *)
+Theorem C07_chunking_sep_newline : forall A x B,
+  Forall ends_lf A -> Forall byte (concat A ++ x) -> spec_lex (concat A ++ x) <> None ->
+  model_lex (A ++ x :: [10] :: B) = model_lex (A ++ (x ++ [10]) :: B).
+Proof. exact model_lex_sep_newline. Qed.
+Print Assumptions C07_chunking_sep_newline.
+
+(* the state-level statement it rests on, for EVERY text (also outside the dialect): if the lexer is back in its
+   Normal state at the end of [s] and [s] does not end with a carriage return, lexing a line feed as a chunk of
+   its own reaches the very state that lexing [s ++ LF] reaches *)
+Theorem C07_line_feed_chunk : forall s st st',
+  state_lf (l_state st) -> state_q (l_state st) ->
+  pl st s = Ok st' -> l_state st' = Normal -> last s 0 <> 13 ->
+  pl st (s ++ [10]) = pl st' [10].
+Proof. exact pl_split_lf. Qed.
+Print Assumptions C07_line_feed_chunk.
+
+(* non-vacuity, and the two side conditions are needed: an open string / a final carriage return change the tokens *)
+Example C07_sep_newline_examples :
+  model_lex [bs_ "a=1" ++ [10]; bs_ "return a"; [10]; bs_ "end" ++ [10]]
+    = model_lex [bs_ "a=1" ++ [10]; bs_ "return a" ++ [10]; bs_ "end" ++ [10]]
+  /\ (match model_lex [bs_ "a=1" ++ [10]; bs_ "return a"; [10]; bs_ "end" ++ [10]] with Ok ts => length ts | Err _ => O end) = 10%nat
+  /\ model_lex [bs_ "s=""a\"; [10]; bs_ "b"""] <> model_lex [bs_ "s=""a\" ++ [10]; bs_ "b"""]
+  /\ model_lex [bs_ "a" ++ [13]; [10]] <> model_lex [bs_ "a" ++ [13; 10]].
+Proof. vm_compute. repeat split; try reflexivity; discriminate. Qed.
